@@ -57,10 +57,34 @@
 (*   stall    the peer stops reading and writing                           *)
 (*   muxerr   a segment the muxer rejects                                  *)
 (*   close    the peer closes the connection                               *)
+(*   tmo      the peer stays silent until the state timeout of the state   *)
+(*            the protocol is waiting in fires (see "state timeouts")      *)
 (* (the empty script and every script that ends without close is silence), *)
 (* and the user of the library: Close() once the peer has played its       *)
 (* script and the call has returned or the library has come to rest, then  *)
 (* draining ErrorChan, then one more call of the same API.                 *)
+(*                                                                         *)
+(* State timeouts.  Silence has two outcomes.  Either somebody closes the  *)
+(* connection (the scripts without tmo: the state timeouts are out of the  *)
+(* way), or the silence lasts longer than the timeout of the state the     *)
+(* mini-protocol waits in (protocol.StateMapEntry.Timeout, set per         *)
+(* protocol through the public options: blockfetch.WithBatchStartTimeout / *)
+(* WithBlockTimeout, chainsync.WithIntersectTimeout / WithBlockTimeout,    *)
+(* localstatequery / localtxmonitor acquire and query timeouts,            *)
+(* localtxsubmission / peersharing WithTimeout; tx-submission has fixed    *)
+(* ones).  stage.timed says that the state entered with the stage's        *)
+(* request (or, for a stage without request, with the reply before it) has *)
+(* such a timeout; reply.untimed that the state a "stay" reply leads to    *)
+(* has none (chain-sync AwaitReply: MustReply's timeout is not an option). *)
+(* stateLoop arms a timer when such a state is entered, disarms it when    *)
+(* the state is left, and when the timer fires (TimeoutFires, an action of *)
+(* the engine, enabled once the script has come to its tmo step) it        *)
+(* reports the error to the connection and stops the protocol, like any    *)
+(* other protocol error - and it must forget the fired timer: Design =     *)
+(* "keeptimer" is the stateLoop that does not and then waits for ever for  *)
+(* a second tick when it is told to stop (TLC has to reject it).  In a tmo *)
+(* case the user closes only when nothing moves in the library any more,   *)
+(* so the timeout is what ends the silence.                                *)
 (*                                                                         *)
 (* TLC explores every interleaving of every (API, script) case; the        *)
 (* behaviour graph of a case is finite and acyclic, so under weak fairness *)
@@ -78,7 +102,7 @@ EXTENDS Integers, Sequences, FiniteSets, TLC, Json, IOUtils, CSV, SequencesExt
 
 CONSTANTS MaxLen,     \* longest peer script
           ApiFilter,  \* set of API names to explore; {} = every row of the table
-          Design,     \* "extracted" | "repaired"
+          Design,     \* "extracted" | "repaired" | "keeptimer" (extracted + stateLoop keeps a fired timer)
           Emit        \* write cases.ndjson / outcomes.ndjson
 
 Table == JsonDeserialize("c15_table.json")
@@ -91,7 +115,7 @@ SetOf(s) == {s[i] : i \in 1..Len(s)}
 (* peer scripts *)
 
 Answering == {"ok", "w1", "w2", "forbid", "garbage", "trunc"}
-Final     == {"trunc", "stall", "muxerr", "close"}
+Final     == {"trunc", "stall", "muxerr", "close", "tmo"}
 Steps     == {"ok", "w1", "w2", "forbid", "garbage", "surplus"} \cup Final
 WIdx      == [ok |-> 1, w1 |-> 2, w2 |-> 3]
 
@@ -101,23 +125,30 @@ NextPk(A, k, j) ==
     LET e == A.stages[k].replies[j].eff IN
     IF e = "stay" THEN k ELSE IF e = "ends" THEN NStages(A) + 1 ELSE k + 1
 
+\* the state the protocol waits in while the peer is at stage k has a state timeout that an option scales
+\* (u: a "stay" reply of this stage has led to a state without one)
+TimedStage(A, k, u) == k <= NStages(A) /\ A.stages[k].timed /\ ~u
+
 \* every step of s from i on can be played when the peer is at stage k (k = N+1: no request will come any more)
-RECURSIVE Playable(_, _, _, _)
-Playable(A, s, i, k) ==
+RECURSIVE Playable(_, _, _, _, _)
+Playable(A, s, i, k, u) ==
     IF i > Len(s) THEN TRUE
     ELSE LET x == s[i] N == NStages(A) IN
          CASE x \in {"ok", "w1", "w2"} ->
                   /\ k <= N
                   /\ WIdx[x] <= Len(A.stages[k].replies)
-                  /\ Playable(A, s, i + 1, NextPk(A, k, WIdx[x]))
+                  /\ LET k2 == NextPk(A, k, WIdx[x]) IN
+                     Playable(A, s, i + 1, k2, k2 = k /\ (u \/ A.stages[k].replies[WIdx[x]].untimed))
            [] x \in {"forbid", "garbage"} ->
                   /\ k <= N
                   /\ (i = Len(s) \/ (i + 1 = Len(s) /\ s[i + 1] = "close"))
-           [] x = "surplus" -> i > 1 /\ s[i - 1] = "ok" /\ Playable(A, s, i + 1, k)
-           [] x = "trunc"   -> k <= N /\ i = Len(s)
+           [] x = "surplus" -> i > 1 /\ s[i - 1] = "ok" /\ Playable(A, s, i + 1, k, u)
+           \* a truncated message, then nothing - until somebody closes, or until the state timeout fires
+           [] x = "trunc"   -> k <= N /\ (i = Len(s) \/ (i + 1 = Len(s) /\ s[i + 1] = "tmo" /\ TimedStage(A, k, u)))
+           [] x = "tmo"     -> i = Len(s) /\ TimedStage(A, k, u)
            [] OTHER         -> i = Len(s)       \* stall, muxerr, close
 
-Scripts(A) == {s \in UNION {[1..n -> Steps] : n \in 0..MaxLen} : Playable(A, s, 1, 1)}
+Scripts(A) == {s \in UNION {[1..n -> Steps] : n \in 0..MaxLen} : Playable(A, s, 1, 1, FALSE)}
 CaseSpace == UNION {{[a |-> i, s |-> s] : s \in Scripts(Table.apis[i])} : i \in ApiIdx}
 
 --------------------------------------------------------------------------
@@ -126,6 +157,7 @@ VARIABLES c,                 \* the case
           c2,                \* call 2 (after Close returned): "idle", "send" (mutex taken), "ret"
           mtx,               \* busy mutex: 0 free, 1 call 1, 2 call 2, 3 kept for the watcher
           ps, ag, sent,      \* protocol stage, agency ("cli" / "srv"), highest stage whose request went out
+          timer,             \* stateLoop's state timer: "off", "armed" (the state waited in is timed), "fired"
           pi, pk, eof, last, \* peer: next step, stage, connection closed / broken by the peer, last reply written
           inbox, bad,        \* decoded messages waiting for recvLoop; malformed bytes waiting for readLoop
           hk, hj, hi,        \* handler: stage and reply it handles (hk = 0: not in a handler), next push
@@ -141,7 +173,7 @@ VARIABLES c,                 \* the case
                              \* "stillborn" (Protocol.Start could not register: nothing runs, DoneChan never closes), "gone"
 
 callV  == <<cpc, ck, rv>>
-protoV == <<ps, ag, sent>>
+protoV == <<ps, ag, sent, timer>>
 peerV  == <<pi, pk, eof, last>>
 handV  == <<hk, hj, hi>>
 connV  == <<perr, merr, fP, fM, sh, closeSig, connClosed, errClosed, unsafeClose>>
@@ -154,6 +186,7 @@ St(k) == A.stages[k]
 Rep(k, j) == St(k).replies[j]
 RepIdx(k) == 1..Len(St(k).replies)
 Repaired == Design = "repaired"
+KeepTimer == Design = "keeptimer"
 StageDone(k) == Repaired \/ St(k).done
 Closed == SetOf(A.closed)
 GNames == {"recv", "send", "closer", "cleanup", "watcher"}
@@ -167,13 +200,17 @@ Down == stopped \/ done \/ mux = "down" \/ ~g["recv"] \/ ~g["send"]
 \* running decides nothing else: whenever readLoop may exit nothing is delivered any more (sendLoop only exits after
 \* stopChan or after recvLoop, which only exits after stopChan or muxerDoneChan), and whenever stateLoop may exit recvLoop
 \* takes no message any more.  So their exits are not interleaved as actions; they are alive exactly until their condition.
+\* A stateLoop that still holds the timer that has fired (Design = "keeptimer") stops and drains it on its way out:
+\* Stop() says "already fired", nothing is left to drain, and it waits for a tick that never comes.
 ReadAlive == ~(stopped \/ mux = "down" \/ ~g["send"])
-StateAlive == ~(stopped \/ done)
+StateAlive == (KeepTimer /\ timer = "fired") \/ ~(stopped \/ done)
+\* stateLoop is in its loop (not on its way out): it takes transitions and the timer's tick
+StateLoops == ~(stopped \/ done)
 
 Init ==
     /\ c \in CaseSpace
     /\ cpc = "lock" /\ ck = 1 /\ rv = "" /\ c2 = "idle" /\ mtx = 0
-    /\ ps = 0 /\ ag = "cli" /\ sent = 0
+    /\ ps = 0 /\ ag = "cli" /\ sent = 0 /\ timer = "off"
     /\ pi = 1 /\ pk = 1 /\ eof = FALSE /\ last = ""
     /\ inbox = <<>> /\ bad = FALSE
     /\ hk = 0 /\ hj = 0 /\ hi = 0
@@ -226,6 +263,7 @@ C1Send ==
     /\ IF Down
        THEN Return("err") /\ UNCHANGED protoV
        ELSE /\ sent' = ck /\ ps' = ck /\ ag' = "srv"
+            /\ timer' = IF St(ck).timed THEN "armed" ELSE "off"       \* setState: the old timer is stopped, a new one armed
             /\ IF cpc = "send" THEN cpc' = "wait" /\ UNCHANGED <<ck, rv, mtx, g>>
                ELSE Return("ok")
     /\ UNCHANGED <<inst2, c, peerV, inbox, bad, handV, buf, stopped, mux, done, cleaned, connV, userV>>
@@ -278,10 +316,12 @@ RLTake ==
                 e == Rep(ps, j).eff IN
             /\ hk' = ps /\ hj' = j /\ hi' = 1
             /\ NoError /\ UNCHANGED sent
-            /\ IF e = "stay" THEN UNCHANGED <<ps, ag>>
+            /\ IF e = "stay"
+               THEN /\ UNCHANGED <<ps, ag>>
+                    /\ timer' = IF timer = "armed" /\ ~Rep(ps, j).untimed THEN "armed" ELSE "off"
                ELSE IF e = "adv" /\ ps < N /\ St(ps + 1).req = ""
-                    THEN ps' = ps + 1 /\ ag' = "srv"
-                    ELSE ag' = "cli" /\ UNCHANGED ps
+                    THEN ps' = ps + 1 /\ ag' = "srv" /\ timer' = (IF St(ps + 1).timed THEN "armed" ELSE "off")
+                    ELSE ag' = "cli" /\ timer' = "off" /\ UNCHANGED ps
     /\ ConnRest
     /\ UNCHANGED <<inst2, c, callV, mtx, g, peerV, bad, buf, mux, done, cleaned, userV>>
 
@@ -321,6 +361,13 @@ Inst2Exit ==
     /\ inst2' = "gone"
     /\ UNCHANGED <<c, callV, mtx, g, protoV, peerV, inbox, bad, handV, buf, stopped, mux, done, cleaned, connV, userV>>
 
+\* stateLoop: the timer of the state the protocol waits in fires - the silence of a script that ends in tmo lasts that
+\* long.  SendError (push to the connection, Stop), and the fired timer is forgotten.
+TimeoutFires ==
+    /\ timer = "armed" /\ Late /\ StateLoops
+    /\ timer' = "fired" /\ RaiseError /\ ConnRest
+    /\ UNCHANGED <<inst2, c, callV, mtx, g, ps, ag, sent, peerV, inbox, bad, handV, buf, mux, done, cleaned, userV>>
+
 \* readLoop: malformed bytes are a decode error whoever has agency
 RDError ==
     /\ bad /\ ReadAlive
@@ -339,7 +386,7 @@ Watcher == g["watcher"] /\ (done \/ mtx # 3) /\ Exit("watcher") /\ mtx' = (IF mt
            /\ UNCHANGED <<done, cleaned>> /\ EngineFrame
 
 RecvLoop == RLTake \/ HPushBuf \/ HPushDone \/ HReturn \/ RLExit
-Engine == RecvLoop \/ RDError \/ SLExit \/ Closer \/ Cleanup \/ Watcher \/ Inst2Exit
+Engine == RecvLoop \/ RDError \/ TimeoutFires \/ SLExit \/ Closer \/ Cleanup \/ Watcher \/ Inst2Exit
 
 --------------------------------------------------------------------------
 (* the connection *)
